@@ -304,12 +304,18 @@ impl<S: LexemeSink> StateMachineActions for Lexer<S> {
     fn finish_attr_name(&mut self, _context: &mut ParserContext<S>, _input: &[u8]) {
         if let Some(AttributeOutline {
             ref mut name,
+            ref mut value,
             ref mut raw_range,
-            ..
         }) = self.current_attr
         {
             *name = get_token_part_range!(self);
             *raw_range = *name;
+            // NOTE: an attribute without a value gets an empty value range right after
+            // its name (rather than `0..0`), so that its source location is meaningful.
+            *value = Range {
+                start: name.end,
+                end: name.end,
+            };
         }
     }
 
